@@ -450,7 +450,10 @@ def install(interp):
 
     reg("where", where)
 
-    def linspace(ctx, a, b, num=50, endpoint=True):
+    def linspace(ctx, start=None, stop=None, num=50, endpoint=True, **kw):
+        if kw or start is None or stop is None:
+            raise Unsupported(f"np.linspace arguments {sorted(kw)}")
+        a, b = start, stop
         if not isinstance(num, int):
             raise Unsupported("np.linspace with symbolic num")
         if num == 0:
